@@ -91,6 +91,32 @@ def yaml_alleles(yml, gene_name):
     return out
 
 
+def documented_cn(g, stc):
+    """Copy-number vector of a structure key (see yaml_alleles) from the documented meaning of the notation; regions are
+    ordered along the gene by their own coordinates and the strand; zero-length regions carry no copies."""
+    order = sorted(g.regions[0], key=lambda r_: (g.regions[0][r_].start, g.regions[0][r_].end), reverse=g.strand < 0)
+    rk = {r_: i for i, r_ in enumerate(order)}
+    has_p = len(g.regions) > 1
+    kind_ = stc if stc == "1" else stc[0]
+    want_cn = None
+    if kind_ == "1":
+        want_cn = [{r_: 1 for r_ in order}] + ([{r_: 1 for r_ in order}] if has_p else [])
+    elif kind_ == "del":
+        want_cn = [{r_: 0 for r_ in order}] + ([{r_: 1 for r_ in order}] if has_p else [])
+    elif kind_ == "custom":
+        want_cn = [{r_: int(r_ not in stc[1]) for r_ in order}] + ([{r_: 1 for r_ in order}] if has_p else [])
+    elif kind_ == "left" and stc[1] in rk and has_p:
+        want_cn = [{r_: int(rk[r_] >= rk[stc[1]]) for r_ in order}, {r_: int(rk[r_] < rk[stc[1]]) for r_ in order}]
+    elif kind_ == "right" and stc[1] in rk and has_p:
+        want_cn = [{r_: int(rk[r_] < rk[stc[1]]) for r_ in order}, {r_: 1 + int(rk[r_] >= rk[stc[1]]) for r_ in order}]
+    if want_cn is not None:
+        for gi_, x in enumerate(want_cn):
+            for r_ in x:
+                if r_ in g.regions[gi_] and g.regions[gi_][r_].end - g.regions[gi_][r_].start <= 0:
+                    x[r_] = 0
+    return want_cn
+
+
 class C09(Check):
     id = "C09"
     rule = ("non-trivial: duplicate variant sets, equal core sets under different numbers, name or label collisions, or "
@@ -301,27 +327,9 @@ class C09(Check):
                 # (docs/database.rst): "brk-" = pseudogene regions before brk + gene regions from brk on; "brk+" = gene
                 # regions before brk + pseudogene regions from brk on, next to a whole pseudogene copy; regions ordered
                 # along the gene (by their own coordinates and the strand)
-                order = sorted(g.regions[0], key=lambda r_: (g.regions[0][r_].start, g.regions[0][r_].end), reverse=g.strand < 0)
-                rk = {r_: i for i, r_ in enumerate(order)}
-                has_p = len(g.regions) > 1
-                kind_ = stc if stc == "1" else stc[0]
-                want_cn = None
-                if kind_ == "1":
-                    want_cn = [{r_: 1 for r_ in order}] + ([{r_: 1 for r_ in order}] if has_p else [])
-                elif kind_ == "del":
-                    want_cn = [{r_: 0 for r_ in order}] + ([{r_: 1 for r_ in order}] if has_p else [])
-                elif kind_ == "custom":
-                    want_cn = [{r_: int(r_ not in stc[1]) for r_ in order}] + ([{r_: 1 for r_ in order}] if has_p else [])
-                elif kind_ == "left" and stc[1] in rk and has_p:
-                    want_cn = [{r_: int(rk[r_] >= rk[stc[1]]) for r_ in order}, {r_: int(rk[r_] < rk[stc[1]]) for r_ in order}]
-                elif kind_ == "right" and stc[1] in rk and has_p:
-                    want_cn = [{r_: int(rk[r_] < rk[stc[1]]) for r_ in order}, {r_: 1 + int(rk[r_] >= rk[stc[1]]) for r_ in order}]
+                want_cn = documented_cn(g, stc)
                 if want_cn is not None:
                     got_cn = [dict(x) for x in g.cn_configs[a.cn_config].cn]
-                    for gi_, x in enumerate(want_cn):       # zero-length regions carry no copies
-                        for r_ in x:
-                            if r_ in g.regions[gi_] and g.regions[gi_][r_].end - g.regions[gi_][r_].start <= 0:
-                                x[r_] = 0
                     if got_cn != want_cn:
                         bad = [(gi_, r_, got_cn[gi_].get(r_), want_cn[gi_][r_]) for gi_ in range(min(len(got_cn), len(want_cn))) for r_ in want_cn[gi_] if got_cn[gi_].get(r_) != want_cn[gi_][r_]]
                         v.append(("catalogue/structure-copy-numbers", f"{name} ({stc}): configuration {a.cn_config} differs from the documented meaning at (gene index, region, got, want) {bad[:4]}"))
@@ -344,6 +352,26 @@ class C09(Check):
         if want_part != got_part:
             v.append(("catalogue/grouping", f"majors group database alleles as {sorted(map(sorted, got_part))[:6]}, "
                                             f"(structure, core set) gives {sorted(map(sorted, want_part))[:6]}"))
+        # ---- a left fusion none of whose database alleles has a core variant is expanded: one partial allele per
+        #      distinct set of parent core variants the fusion retains, for every non-fused major allele
+        plain = [(an, a) for an, a in g.alleles.items() if a.cn_config == "1" and "#" not in an]
+        for cname, conf in g.cn_configs.items():
+            if conf.kind != CNConfigType.LEFT_FUSION:
+                continue
+            dbn = [name for name, (stc, vs) in db.items() if isinstance(stc, tuple) and stc[0] == "left"
+                   and documented_cn(g, stc) == [dict(x) for x in conf.cn]]
+            if not dbn or any(core_of(db[n][1]) for n in dbn):
+                continue
+
+            def kept(m, conf=conf):
+                r = g.region_at(m.pos)
+                return bool(r) and conf.cn[r[0]][r[1]] > 0
+
+            want_sets = {frozenset(m for m in a.func_muts if kept(m)) for _, a in plain}
+            got_sets = {frozenset(a.func_muts) for an, a in g.alleles.items() if an.startswith(cname + "#")}
+            if want_sets != got_sets:
+                v.append(("partial/expansion", f"bare left fusion {dbn} (configuration {cname}): partial alleles carry {sorted(map(sorted, got_sets))[:4]}, "
+                                               f"the retained parts of the non-fused majors are {sorted(map(sorted, want_sets))[:4]}"))
         # ---- partial alleles of bare left fusions
         for an, a in g.alleles.items():
             if "#" not in an:
